@@ -15,12 +15,13 @@ func init() { register("C13", "other", checkC13) }
 
 func checkC13(w *World, r *Result) {
 	r.Explanation = "Decides structural necessary conditions on analysis/httpapi: AGR-C13a every types.Type-typed contract slot that resolveTypes resolves back through the shared analysis is also collected into the list that analysis is built from (else the slot stays nil unless another route mentions the type); AGR-C13b every exported field of Endpoint/Contract/Form/TypedParam has a writer in httpapi and a reader in the TypeScript client generator; SHP-C13v the verb set contains GET, PUT, POST, DELETE; SHP-C13n a registration is skipped by arity only when it has fewer than two arguments; SHP-C13p between URL resolution and the append the only filter is the prefix test; SHP-C13h the handler resolution covers method/package selector, identifier and function literal, and a declared handler's body is selected by its declaration position (unique), not by name; SHP-C13o endpoints are only appended, inside one syntax walk that does not descend into a recorded registration (source order, one entry each); SHP-C13r the return statement parser reads JSON/JSONPretty's 2nd and Blob's 3rd argument and sets the blob flag with it; OBL-* no unguarded partial operation in the package. Does not decide: one entry per registration and constant folding as value-level facts about arbitrary programs."
-	r.Rules = []string{"AGR-C13a", "AGR-C13b", "SHP-C13v", "SHP-C13n", "SHP-C13p", "SHP-C13h", "SHP-C13o", "SHP-C13r", "OBL-*", "MEMO-KEY", "PKG-ID"}
+	r.Rules = []string{"AGR-C13a", "AGR-C13b", "SHP-C13v", "SHP-C13n", "SHP-C13p", "SHP-C13h", "SHP-C13o", "SHP-C13r", "SHP-C13g", "OBL-*", "MEMO-KEY", "PKG-ID"}
 	memoKeyRule(w, r, func(rel string) bool { return rel == "analysis/httpapi" })
 	pkgIDRule(w, r, func(rel string) bool { return rel == "analysis/httpapi" })
 	checkResolveTypes(w, r)
 	checkRecordCoverage(w, r)
 	checkExtractShape(w, r)
+	checkGenericForms(w, r)
 	checkResolveFunc(w, r)
 	checkReturnParser(w, r)
 	for _, o := range runOBL(w, func(rel string) bool { return rel == "analysis/httpapi" }) {
@@ -605,4 +606,121 @@ func checkReturnParser(w *World, r *Result) {
 		}
 	}
 	r.cond(seenJSON && seenBlob, "SHP-C13r", fi.Name, "JSON, JSONPretty and Blob recognised", fnPos(w, fi), "all three response forms", "a response form (JSON/JSONPretty/Blob) is no longer recognised")
+}
+
+// checkGenericForms (SHP-C13g): a typed query helper may be called plainly (`QueryParamInt(c, "id")`,
+// `helpers.QueryParamInt(c, "id")`) or explicitly instantiated (`QueryParamInt[ID](c, "id")`,
+// `helpers.QueryParamInt[ID](c, "id")`). parseCallWithString reads the callee's name from the syntax of call.Fun:
+// the set of syntactic forms it accepts below an index expression must equal the set it accepts without one.
+func checkGenericForms(w *World, r *Result) {
+	fi := w.MustFunc("analysis/httpapi.parseCallWithString")
+	info := fi.Pkg.TypesInfo
+	var ts *ast.TypeSwitchStmt
+	ast.Inspect(fi.Decl.Body, func(x ast.Node) bool {
+		if s, ok := x.(*ast.TypeSwitchStmt); ok && ts == nil {
+			ts = s
+		}
+		return true
+	})
+	if ts == nil {
+		Undecided("SHP-C13g: parseCallWithString has no type switch over the callee expression")
+	}
+	var subj ast.Expr
+	if as, ok := ts.Assign.(*ast.AssignStmt); ok && len(as.Rhs) == 1 {
+		if ta, ok := as.Rhs[0].(*ast.TypeAssertExpr); ok {
+			subj = ta.X
+		}
+	}
+	if subj == nil {
+		Undecided("SHP-C13g: unrecognised type switch header in parseCallWithString")
+	}
+	formsOf := func(cl *ast.CaseClause) []string {
+		var out []string
+		for _, e := range cl.List {
+			out = append(out, es(e))
+		}
+		return out
+	}
+	plain := map[string]bool{}
+	var indexClause *ast.CaseClause
+	for _, c := range ts.Body.List {
+		cl := c.(*ast.CaseClause)
+		for _, f := range formsOf(cl) {
+			if f == "*ast.IndexExpr" || f == "*ast.IndexListExpr" {
+				indexClause = cl
+			} else {
+				plain[f] = true
+			}
+		}
+	}
+	// form 1: the switch subject is a variable that was unwrapped before the switch: `if ix, ok := v.(*ast.IndexExpr); ok { v = ix.X }`
+	unwrapped := false
+	if id := identOf(subj); id != nil {
+		obj := objOf(info, id)
+		ast.Inspect(fi.Decl.Body, func(x ast.Node) bool {
+			is, ok := x.(*ast.IfStmt)
+			if !ok || is.End() > ts.Pos() || is.Init == nil {
+				return true
+			}
+			ias, ok := is.Init.(*ast.AssignStmt)
+			if !ok || len(ias.Rhs) != 1 {
+				return true
+			}
+			ta, ok := ias.Rhs[0].(*ast.TypeAssertExpr)
+			if !ok || ta.Type == nil || es(ta.Type) != "*ast.IndexExpr" {
+				return true
+			}
+			if tid := identOf(ta.X); tid == nil || objOf(info, tid) != obj {
+				return true
+			}
+			for _, st := range is.Body.List {
+				if as, ok := st.(*ast.AssignStmt); ok && len(as.Lhs) == 1 && len(as.Rhs) == 1 {
+					if lid := identOf(as.Lhs[0]); lid != nil && objOf(info, lid) == obj {
+						if sel, ok := as.Rhs[0].(*ast.SelectorExpr); ok && sel.Sel.Name == "X" {
+							unwrapped = true
+						}
+					}
+				}
+			}
+			return true
+		})
+	}
+	var plainForms []string
+	for f := range plain {
+		plainForms = append(plainForms, f)
+	}
+	sort.Strings(plainForms)
+	cons := "callee forms under an instantiation = callee forms without {" + strings.Join(plainForms, ", ") + "}"
+	switch {
+	case unwrapped && indexClause == nil:
+		r.ok("SHP-C13g", fi.Name, cons, w.Pos(ts.Pos()), "the index expression of an explicit instantiation is unwrapped before the switch over the callee's form: generic and plain calls go through the same cases", true)
+	case indexClause != nil:
+		// forms asserted on <clause var>.X inside the clause
+		inner := map[string]bool{}
+		ast.Inspect(indexClause, func(x ast.Node) bool {
+			switch v := x.(type) {
+			case *ast.TypeAssertExpr:
+				if sel, ok := ast.Unparen(v.X).(*ast.SelectorExpr); ok && sel.Sel.Name == "X" && v.Type != nil {
+					inner[es(v.Type)] = true
+				}
+			case *ast.TypeSwitchStmt:
+				for _, c := range v.Body.List {
+					for _, e := range c.(*ast.CaseClause).List {
+						inner[es(e)] = true
+					}
+				}
+			}
+			return true
+		})
+		var missing []string
+		for _, f := range plainForms {
+			if !inner[f] {
+				missing = append(missing, f)
+			}
+		}
+		r.cond(len(missing) == 0, "SHP-C13g", fi.Name, cons, w.Pos(indexClause.Pos()), "the instantiation case handles every callee form the plain cases handle",
+			"under an explicit instantiation the callee form(s) "+strings.Join(missing, ", ")+" are not handled although they are without one: e.g. `helpers.QueryParamInt[ID](c, \"id\")` is silently dropped from the contract")
+	default:
+		r.bad("SHP-C13g", fi.Name, cons, w.Pos(ts.Pos()), "explicit instantiations (call.Fun is an *ast.IndexExpr) are neither unwrapped before the switch nor handled by a case: generic typed query helpers are dropped from the contract")
+	}
 }
